@@ -103,6 +103,43 @@ func ruleAccumulate(r *core.Run, p *core.Prog, rel, name string, op token.Token)
 					}
 				}
 			}
+		case *ast.ReturnStmt:
+			// value form: return T{F: recv.F op other.F, …} (or … recv.F.M(other.F))
+			if len(s.Results) != 1 {
+				return true
+			}
+			cl, ok := ast.Unparen(resolveLocal(info, f.Decl.Body, s.Results[0])).(*ast.CompositeLit)
+			if !ok || core.NamedOf(info.TypeOf(cl)) == nil || core.NamedOf(info.TypeOf(cl)).Obj() != T.Obj() {
+				return true
+			}
+			for _, el := range cl.Elts {
+				kv, ok := el.(*ast.KeyValueExpr)
+				if !ok {
+					continue
+				}
+				kid, _ := kv.Key.(*ast.Ident)
+				if kid == nil {
+					continue
+				}
+				df, _ := info.Uses[kid].(*types.Var)
+				if df == nil {
+					continue
+				}
+				want := token.ADD
+				if op == token.SUB_ASSIGN {
+					want = token.SUB
+				}
+				switch v := ast.Unparen(kv.Value).(type) {
+				case *ast.BinaryExpr:
+					recs[df] = append(recs[df], rec{fieldOn(v.Y, other), v.Op == want && fieldOn(v.X, recv) == df, kv.Pos()})
+				case *ast.CallExpr:
+					if rx, m := core.MethodCall(info, v); rx != nil && len(v.Args) == 1 {
+						recs[df] = append(recs[df], rec{fieldOn(v.Args[0], other), m == mname && fieldOn(rx, recv) == df, kv.Pos()})
+					}
+				default:
+					recs[df] = append(recs[df], rec{nil, false, kv.Pos()})
+				}
+			}
 		}
 		return true
 	})
